@@ -72,6 +72,9 @@ pub fn universes_for(opts: &Opts) -> Vec<String> {
     }
     if opts.prop == "C04" {
         let mut v = vec!["mfixed".to_string(), format!("ms{}", opts.seed)];
+        if let Ok(l) = std::env::var("VERIF_ONLY_UNIVERSE") {
+            return vec![l];
+        }
         if opts.tier == "thorough" {
             for k in 1..6 {
                 v.push(format!("ms{}k{}", opts.seed, k));
@@ -261,6 +264,40 @@ pub fn run(opts: &Opts) -> i32 {
             build::EXTRA_ENV.lock().unwrap().clear();
         }
     }
+    // ---- types naming arrays of more than 2^32 items (their own universe and their own build, see fixedgen.rs)
+    let mut apart: Vec<&str> = vec![];
+    if ["C01", "C04", "C06"].contains(&opts.prop.as_str()) {
+        apart.push("huge");
+    }
+    // ... and very deep nesting / type names of kilobytes, for the same reason
+    if ["C01", "C02", "C03", "C06", "C07", "C10", "C11", "C12", "C13", "C14", "C15", "C18"].contains(&opts.prop.as_str()) {
+        apart.push("deep");
+    }
+    for apart_label in apart {
+        if opts.replay.is_some() || std::env::var_os("VERIF_ONLY_UNIVERSE").is_some() {
+            break;
+        }
+        match build::prepare(opts, &[apart_label.to_string()]) {
+            Ok(hs) => {
+                for (label, u) in &hs {
+                    match build::run_bin(label, &opts.prop, opts, &[]) {
+                        Ok(mut r) => {
+                            if let Some(fs) = r["failures"].as_array_mut() {
+                                for f in fs.iter_mut() {
+                                    f["universe"] = json!(label);
+                                }
+                            }
+                            agg.add_report(&r);
+                            agg.universes.push(json!({"label": label, "definitions": u.adts.len(), "subjects": u.subjects.len(), "wall_s": r["wall_s"]}));
+                        }
+                        Err(e) => infra_err = Some(e),
+                    }
+                }
+            }
+            // inconclusive, not an alarm: the other universes have been decided
+            Err(e) => agg.universes.push(json!({"label": apart_label, "note": format!("could not be built, skipped: {}", e.lines().take(3).collect::<Vec<_>>().join(" / "))})),
+        }
+    }
     // ---- the same oracles with everything built as a release build would be (no debug assertions, no overflow
     // checks): behaviour that only debug assertions keep in check shows up here
     const REL_PROPS: [&str; 4] = ["C02", "C11", "C12", "C15"];
@@ -331,6 +368,9 @@ pub fn run(opts: &Opts) -> i32 {
                 Err(e) => infra_err = Some(format!("fuzz campaign: {}", e)),
             }
         }
+    }
+    for (l, why) in build::SKIPPED.lock().unwrap().drain(..) {
+        agg.universes.push(json!({"label": l, "note": format!("skipped: {}", why)}));
     }
     let code = finish(opts, &pi, agg, start, infra_err);
     code
